@@ -22,6 +22,7 @@ SCENARIOS = {
     "C19": ("gtsim.scenarios.history", {"prop": "C19"}),
     "C11": ("gtsim.scenarios.bayes", {"prop": "C11"}),
     "C15": ("gtsim.scenarios.history", {"prop": "C15"}),
+    "C12": ("gtsim.scenarios.subbatch", {"prop": "C12"}),
 }
 
 RUNS = {  # property -> (quick runs, thorough runs)
@@ -31,6 +32,7 @@ RUNS = {  # property -> (quick runs, thorough runs)
     "C19": (800, 25000),
     "C11": (1500, 40000),
     "C15": (1200, 40000),
+    "C12": (1000, 30000),
 }
 
 PER_RUN_TIMEOUT = 600
